@@ -22,7 +22,7 @@ type Universe struct {
 	Vulns    []GenVuln           `json:"vulns"`
 	Pkgs     []string            `json:"pkgs"`
 	Versions map[string][]string `json:"versions"`
-	Direct   []string            `json:"direct"` // packages the manifest requires directly
+	Direct   []string            `json:"direct"`    // packages the manifest requires directly
 	NameSafe bool                `json:"name_safe"` // no package name needs escaping in a gjson path (informational)
 }
 
